@@ -107,7 +107,8 @@ impl GenDict {
     /// what the trace specifications treat as the dictionary's declared content
     pub fn meta(&self) -> Value {
         let lex: Vec<Value> = self.words.iter().map(|w| json!([w.lid, w.rid, w.cost])).collect();
-        json!({"conn": self.conn, "lex": [lex], "nl": self.nl, "nr": self.nr,
+        let dicts: Vec<Value> = self.words.iter().map(|w| json!({"key": cps(&w.key), "lid": w.lid})).collect();
+        json!({"conn": self.conn, "lex": [lex], "nl": self.nl, "nr": self.nr, "dicts": [dicts],
                "keys": self.words.iter().map(|w| cps(&w.key)).collect::<Vec<_>>()})
     }
 
@@ -127,6 +128,19 @@ pub fn csv_params(path: &str) -> Vec<Value> {
         let cost: i64 = f[3].trim().parse().unwrap();
         // -32768 in a user dictionary means "compute at load time"
         out.push(json!([f[1].trim().parse::<i64>().unwrap(), f[2].trim().parse::<i64>().unwrap(), if cost == -32768 { 100000 } else { cost }]));
+    }
+    out
+}
+
+/// keys (first CSV column) and left ids of a lexicon source, in row order
+pub fn csv_keys(path: &str) -> Vec<Value> {
+    let mut out = Vec::new();
+    for line in read_lines(path) {
+        if line.trim().is_empty() {
+            continue;
+        }
+        let f: Vec<&str> = line.split(',').collect();
+        out.push(json!({"key": cps(f[0]), "lid": f[1].trim().parse::<i64>().unwrap()}));
     }
     out
 }
